@@ -23,14 +23,18 @@ Inductive hint :=
    including another host of the same provider - is rejected by CheckIssuer. *)
 Inductive tok :=
 | TNone
-| TSigned (iss : string) (expired : bool) (sub azp : string)
+| TSigned (key : string) (iss : string) (expired : bool) (sub azp : string)
 | TBad.
 
-Definition classify (current_issuer : string) (t : tok) : hint :=
+(* published = the key ids Storage.KeySet returns when THIS request is served (the key set is
+   read for every verification: a key that was withdrawn since an earlier request no longer
+   counts, exactly like a key that was never published) *)
+Definition classify (current_issuer : string) (published : list string) (t : tok) : hint :=
   match t with
   | TNone => HNone
   | TBad => HBad
-  | TSigned iss ex sub azp => if String.eqb iss current_issuer then HGood ex sub azp else HBad
+  | TSigned key iss ex sub azp =>
+      if String.eqb iss current_issuer && string_in key published then HGood ex sub azp else HBad
   end.
 
 Inductive pres := PMatch | PNoMatch | PBad.      (* path.Match *)
@@ -38,6 +42,12 @@ Inductive pres := PMatch | PNoMatch | PBad.      (* path.Match *)
 Record lclient := { l_id : string; l_post : list string; l_globs : option (list string) }.
 
 Inductive efault := EF_None | EF_GetClient | EF_Terminate.
+
+(* the storage may implement the optional op.CanTerminateSessionFromRequest: it then gets the
+   validated session and chooses the redirect itself. TS_Echo returns session.RedirectURI,
+   TS_Fixed l returns a URI of its own whose Location rendering (http.Redirect) is l
+   (the empty string included), TS_Err fails. *)
+Inductive tsfr := TS_Absent | TS_Echo | TS_Fixed (loc : string) | TS_Err.
 
 Record esreq := { e_hint : hint; e_client : string; e_uri : string; e_state : string; e_fault : efault }.
 
@@ -64,6 +74,7 @@ Section Session.
   Variable pmatch : string -> string -> pres.
   Variable uparse : string -> option purl.
   Variable default_uri : string.
+  Variable ts : tsfr.
   Variable cs : list lclient.
 
   Inductive pv := PvOk | PvInvalid | PvGlobErr.
@@ -134,13 +145,24 @@ Section Session.
   Definition terminate_fails (q : esreq) : bool :=
     match e_fault q with EF_Terminate => true | _ => false end.
 
+  (* after a successful validation: Storage.TerminateSession, or the optional
+     TerminateSessionFromRequest whose answer replaces the redirect; err_status = status of
+     the server_error page of the router *)
+  Definition finish (err_status : N) (q : esreq) (user sc target : string) : eout :=
+    match ts with
+    | TS_Absent =>
+        if terminate_fails q then EPage err_status "server_error" (Some (user, sc))
+        else ERedirect target (user, sc)
+    | TS_Echo => ERedirect target (user, sc)
+    | TS_Fixed l => ERedirect l (user, sc)
+    | TS_Err => EPage err_status "server_error" (Some (user, sc))
+    end.
+
   (* op.EndSession: RequestError answers 400 with the error as JSON *)
   Definition end_session_provider (q : esreq) : eout :=
     match validate_end_session q with
     | inl e => EPage 400 (code_of e) None
-    | inr (user, sc, target) =>
-        if terminate_fails q then EPage 400 "server_error" (Some (user, sc))
-        else ERedirect target (user, sc)
+    | inr (user, sc, target) => finish 400 q user sc target
     end.
 
   (* webServer.endSessionHandler / LegacyServer.EndSession: WriteError answers 500 for server_error *)
@@ -148,9 +170,7 @@ Section Session.
     match validate_end_session q with
     | inl E_InvalidRequest => EPage 400 "invalid_request" None
     | inl E_ServerError => EPage 500 "server_error" None
-    | inr (user, sc, target) =>
-        if terminate_fails q then EPage 500 "server_error" (Some (user, sc))
-        else ERedirect target (user, sc)
+    | inr (user, sc, target) => finish 500 q user sc target
     end.
 
   Definition end_session (r : router) : esreq -> eout :=
